@@ -909,6 +909,24 @@ FAMILIES = ["gone_path", "reuse_noquery", "reuse_zombie", "multi_recycle", "pid0
             "live", "mixed", "mixed", "btime0"]
 
 
+def well_indexed(combo):
+    """every call that names an object names one that exists at that point (a call through a missing
+    index never reaches psutil: the harness answers `badCall` itself)"""
+    k = SimKernel(1)
+    nobj = 0
+    for o in combo:
+        op = o["op"]
+        if op in KERNEL_OPS:
+            k.apply(o)
+        elif op == "new":
+            if o["pid"] in k.procs:
+                nobj += 1
+        else:
+            if any(o.get(x, -1) >= nobj for x in ("i", "j")):
+                return False
+    return True
+
+
 def exhaustive_histories(maxlen, btime=1000):
     """all histories up to `maxlen` over a small alphabet on one PID (objects 0 and 1)"""
     p = 5
@@ -921,12 +939,25 @@ def exhaustive_histories(maxlen, btime=1000):
     ]
     for n in range(1, maxlen + 1):
         for combo in itertools.product(alphabet, repeat=n):
-            if n > 3:
-                # no object is ever built unless a spawn precedes a Process(pid): nothing to observe
-                names = [o["op"] for o in combo]
-                if "spawn" not in names or "new" not in names[names.index("spawn"):]:
-                    continue
+            if n > 3 and not well_indexed(combo):
+                continue
             yield {"btime": btime, "ops": list(combo), "family": "exhaustive", "hyp": True}
+
+
+def exhaustive_two_pids(maxlen, btime=1000):
+    """all histories up to `maxlen` over a small alphabet on two PIDs (objects 0 and 1 may belong to
+    either): cross-PID interference through the shared module state"""
+    alphabet = [
+        {"op": "spawn", "pid": 5}, {"op": "spawn", "pid": 7}, {"op": "reap", "pid": 5},
+        {"op": "new", "pid": 5}, {"op": "new", "pid": 7},
+        {"op": "signal", "i": 0, "m": "terminate", "sig": 0}, {"op": "is_running", "i": 1},
+        {"op": "eq", "i": 0, "j": 1},
+    ]
+    for n in range(3, maxlen + 1):
+        for combo in itertools.product(alphabet, repeat=n):
+            if not well_indexed(combo):
+                continue
+            yield {"btime": btime, "ops": list(combo), "family": "exhaustive2", "hyp": True}
 
 
 def features(h, result):
@@ -993,6 +1024,7 @@ def correspond_for(ctx, res, prop, driver_file, n_quick, n_thorough):
         n_rand = len(hists)
         maxlen = 5 if ctx.tier == "quick" else 6
         hists.extend(exhaustive_histories(maxlen))
+        hists.extend(exhaustive_two_pids(maxlen))
         total_lines = 0
         CH = 3000
         sampled = 0
@@ -1009,7 +1041,7 @@ def correspond_for(ctx, res, prop, driver_file, n_quick, n_thorough):
                 res.count("ops", len(h["ops"]))
                 res.count("objects", len(r["pairs"][0]["hash"]))
                 sample = None
-                if fam != "exhaustive" and sampled < 6 and (feats & NONTRIVIAL):
+                if not fam.startswith("exhaustive") and sampled < 6 and (feats & NONTRIVIAL):
                     sampled += 1
                     sample = {"family": fam, "btime": h["btime"], "ops": h["ops"],
                               "impl": [[x[1], x[2]] for x in r["rows"]]}
@@ -1024,8 +1056,10 @@ def correspond_for(ctx, res, prop, driver_file, n_quick, n_thorough):
                     res.disagree(kind, {"btime": h["btime"], "ops": ops, "family": fam, "hyp": h.get("hyp", True)},
                                  im, mo, sp, note=("step %s: %s" % (nstep, why)))
         res.exhaustive = ("all %d histories of length <= %d over {spawn, reap, exit, Process(pid), is_running(0), kill(0), "
-                          "nice(1), clock step, boot_time(), ==(0,1)} on one PID (of those longer than 3, the ones in which a spawn "
-                          "precedes a Process(pid), i.e. in which an object can exist); the random families are samples" % (len(hists) - n_rand, maxlen))
+                          "nice(1), clock step, boot_time(), ==(0,1)} on one PID, and of length 3..%d over {spawn 5, spawn 7, "
+                          "reap 5, Process(5), Process(7), terminate(0), is_running(1), ==(0,1)} on two PIDs (beyond length 3 "
+                          "only those in which every call names an object that exists at that point — other calls never "
+                          "reach psutil); the random families are samples" % (len(hists) - n_rand, maxlen, maxlen))
         res.extra["driver_lines"] = total_lines
         res.extra["clock_ticks"] = impl.clk
     finally:
